@@ -28,6 +28,7 @@ RULE = ("One evaluation = one seeded execution: each side declares "
         "subchannel was opened and closed, or an undeclared OPEN was sent, "
         "or a listener was registered after the OPEN. Distinct: event-log "
         "digests among non-trivial runs.")
+RULE += (' A connect() that fails is itself a violation.')
 LEVEL_TEXT = ("Seeded exploration. Each connect() => exactly one "
               "buildProtocol+connectionMade on the peer under the same name "
               "(at listen time if the listener comes later); ids allocated by "
